@@ -51,6 +51,20 @@ fn core() -> &'static Vec<Prog> {
                 }
             }
         }
+        // the access lasts for the whole closure: the flag is published from inside it, the cell is used again afterwards
+        for &so in &STORE_ORDS {
+            for &lo in &LOAD_ORDS {
+                for write in [true, false] {
+                    let hold = Op::CellHold { c: 0, write, loc: 0, val: 1, ord: so };
+                    for acc in [cr, cw] {
+                        v.push(Prog { nlocs: 1, pre: vec![], threads: vec![vec![], vec![hold], vec![aw(0, lo), acc]] });
+                        v.push(Prog { nlocs: 1, pre: vec![], threads: vec![vec![aw(0, lo), acc], vec![hold]] });
+                    }
+                    // ordered by the join instead: never a race
+                    v.push(Prog { nlocs: 1, pre: vec![], threads: vec![vec![], vec![hold, st(0, 2, so)], vec![]] });
+                }
+            }
+        }
         for &f1 in &FENCE_ORDS {
             for &f2 in &FENCE_ORDS {
                 v.push(Prog { nlocs: 1, pre: vec![], threads: vec![vec![], vec![cw, f(f1), st(0, 1, Rlx)], vec![aw(0, Rlx), f(f2), cr]] });
@@ -105,6 +119,9 @@ pub fn prog_at(tier: u8, seed: u64, idx: usize) -> Prog {
                 let pos = rng.below(p.threads[th].len() + 1);
                 let op = if rng.chance(1, 8) {
                     Op::UnsyncLoad { loc: 0 }
+                } else if rng.chance(1, 6) {
+                    writes += 1;
+                    Op::CellHold { c: 0, write: rng.chance(1, 2), loc: rng.below(nl) as u8, val: 90 + th as u64, ord: *rng.pick(&STORE_ORDS) }
                 } else if rng.chance(1, 2) {
                     writes += 1;
                     Op::CellWrite { c: 0 }
@@ -137,14 +154,15 @@ pub fn judge(p: &Prog, rec: &mut Rec, tier: u8, verbose: bool) {
     rec.prog = p.s();
     rec.extra = json!({"family": "race"});
     let mut st = Stats { budget: 400_000, ..Default::default() };
-    let verdict = match race_verdict(p, &mut st) {
+    let q = p.expanded();
+    let verdict = match race_verdict(&q, &mut st) {
         Ok(v) => v,
         Err(Budget) => {
             rec.status = "inconclusive:oracle-budget".into();
             return;
         }
     };
-    let (_, stuck) = outcomes_sc(p);
+    let (_, stuck) = outcomes_sc(&q);
     if stuck {
         rec.status = "inconclusive:await-can-block".into();
         return;
